@@ -7,7 +7,7 @@ from typing_extensions import override
 
 from .decodestate import DecodeState
 from .encodestate import EncodeState
-from .exceptions import odxassert, odxraise, odxrequire
+from .exceptions import DecodeError, odxassert, odxraise, odxrequire
 from .field import Field
 from .odxlink import OdxDocFragment, OdxLinkDatabase, OdxLinkId
 from .odxtypes import ParameterValue
@@ -93,12 +93,13 @@ class StaticField(Field):
         for _ in range(self.fixed_number_of_items):
             orig_cursor = decode_state.cursor_byte_position
 
-            if decode_state.cursor_byte_position - orig_cursor > self.item_byte_size:
-                odxraise(f"Insufficient item byte size for static field {self.short_name}: "
-                         f"Is {self.item_byte_size} bytes, but need at least "
-                         f"{decode_state.cursor_byte_position - orig_cursor} bytes")
-
             result.append(self.structure.decode_from_pdu(decode_state))
+
+            if decode_state.cursor_byte_position - orig_cursor > self.item_byte_size:
+                odxraise(
+                    f"Insufficient item byte size for static field {self.short_name}: "
+                    f"Is {self.item_byte_size} bytes, but need at least "
+                    f"{decode_state.cursor_byte_position - orig_cursor} bytes", DecodeError)
 
             decode_state.cursor_byte_position = orig_cursor + self.item_byte_size
 
